@@ -41,6 +41,7 @@ def check(ctx):
     r042_interpolation(ctx)
     r044_thresholder(ctx)
     r045_counts(ctx)
+    sweep_structure(ctx, "R04.5")
 
 
 def _analysis(ctx):
@@ -393,3 +394,60 @@ def r045_counts(ctx):
                 mids.append(e)
     ctx.ob("R04.5", fq, mids[0].node if mids else None, bool(mids), "thresholds are midpoints between consecutive distinct scores",
            construct="midpoint thresholds")
+
+
+def sweep_structure(ctx, rule):
+    """The threshold sweep groups *equal* scores: counts are updated and the position advanced exactly while the score
+    equals the current one; the sweep runs over all n rows in descending score order."""
+    A = Analysis(ctx, no_inline=[EXTEND, M_TC + ":_get_scores_labels_and_counts"])
+    r = A.run(M_TC + ":_calculate_tradeoff_points")
+    fq = r.func
+    cnt = calls_to(r, M_TC + ":_get_scores_labels_and_counts")
+    ctx.require(len(cnt) == 1, "anchor vanished: _get_scores_labels_and_counts call")
+    res = cnt[0].data["result"]
+    scores0, labels0, n = mk("sub", res, const(0)), mk("sub", res, const(1)), mk("sub", res, const(2))
+    whiles = [e for e in r.events if e.kind == "loop" and e.func == fq and e.data.get("elem") is None]
+    outer = [e for e in whiles if not e.loops]
+    inner = [e for e in whiles if e.loops]
+    ok = len(outer) == 1 and len(inner) == 1
+    if not ok:
+        ctx.ob(rule, fq, None, None, f"expected an outer and an inner while loop in the sweep (found {len(outer)}, {len(inner)})",
+               construct="sweep loops")
+        return
+    o, i_ = outer[0], inner[0]
+    # outer: while i < n
+    oc = A.C.canon(o.data["iter"])
+    ivars = [s_ for s_ in subterms(o.data["iter"]) if s_.op in ("const",) and False]
+    okc = oc.op == "cmp" and oc.args[0] == "<" and A.C.canon(n) in (oc.args[1], oc.args[2])
+    ctx.ob(rule, fq, o.node, okc, "the sweep runs while the position is below n", construct="sweep outer condition")
+    # inner: while scores[i] == threshold, with threshold = scores[i] read before the loop
+    ic = i_.data["iter"]
+    okt = ic.op == "cmp" and ic.args[0] == "==" and any(x.op == "sub" and root_of(x.args[0]).op in ("sub", "listappend", "call")
+                                                         for x in (ic.args[1], ic.args[2]))
+    ctx.ob(rule, fq, i_.node, okt, "scores are grouped by exact equality with the current score (ties share one threshold)"
+           if okt else f"tie grouping uses {A.show(ic, 120)} instead of exact equality of scores", construct="sweep tie condition")
+    body = [e for e in r.events if e.loops[:2] == (o.data["lid"], i_.data["lid"]) and e.func == fq]
+    incs = [e for e in body if e.kind == "store" and e.data.get("tkind") == "sub"]
+    adv = [e for e in body if e.kind == "store" and e.data.get("tkind") == "name"]
+    okb = len(incs) == 1 and len(adv) == 1
+    if okb:
+        inc, ad = incs[0], adv[0]
+        pos = ad.data["value"]
+        rat = A.C._as_rat(A.C.canon(pos))
+        okb = rat.num.terms.get((), 0) == 1 and len(rat.num.terms) == 2  # i + 1
+        key = inc.data["key"]
+        okb = okb and key.op == "sub" and root_of(key.args[0]).op in ("sub", "listappend", "call")
+        v = A.C._as_rat(A.C.canon(inc.data["value"]))
+        okb = okb and v.num.terms.get((), 0) == 1 and len(v.num.terms) == 2  # count[label] + 1
+    ctx.ob(rule, fq, incs[0].node if incs else None, okb, "each row of the tie group increments the count of its own label by "
+           "one and advances the position by one", construct="sweep tie body")
+    # sorted descending by score
+    A2 = Analysis(ctx)
+    rs = A2.run(M_TC + ":_get_scores_labels_and_counts")
+    d = rs.params["data"]
+    srt = A2.entry(rs, "data.sort_values(by=SCORE_KEY, ascending=False)")
+    ret = rs.ret
+    oks = ret is not None and ret.op == "tuple" and A2.eq(ret.args[0][0], A2.spec("list(S[K])", {"S": srt, "K": A2.entry(rs, "SCORE_KEY"), "list": glob("builtins.list")})) \
+        and A2.eq(ret.args[0][1], A2.spec("list(S[K])", {"S": srt, "K": A2.entry(rs, "LABEL_KEY"), "list": glob("builtins.list")}))
+    ctx.ob(rule, rs.func, None, oks, "scores and labels are read from the same frame sorted by descending score",
+           construct="sweep ordering")
